@@ -88,3 +88,4 @@ CFG['rule'] = CFG['rule'] + ' ' + 'Additions: quantiser trigger thresholds are b
 CFG['rule'] = CFG['rule'] + ' ' + 'Update requests of this profile name one point twice one time in five ([remove the vector field], [set it]); every second history searches the empty index before the first write.'
 
 CFG['rule'] = CFG['rule'] + ' ' + 'Every second hamming / jaccard history attaches a binary quantiser block with a threshold of its own (0.2, 0.75, -0.5, 1.5) -- unused for these metrics, bits are taken at 0.5 -- and its vectors take fractional values (0.25 .. 1.25) one time in three.'
+CFG['rule'] = CFG['rule'] + ' ' + 'A third of the histories keep the flat vector at the nested path nested.v (updates reach it through the parent key); the bit-metric indexes carry a binary quantiser block with a threshold of its own (not used).'
